@@ -24,6 +24,7 @@ class Crate:
         self.adts = d['adts']
         self.impls = d['impls']
         self.sigs = d['sigs']
+        self.inlined_helpers = d.get('inlined_helpers', [])
         self.bodies = [Body(b, self) for b in d['bodies']]
         self.by_path = defaultdict(list)
         for b in self.bodies:
